@@ -295,8 +295,21 @@ fn jobs_of(p: &Prepared, tier: Tier) -> Vec<Job> {
         let len = p.reference[k as usize].1;
         // one-shot errors of different classes (hard, would-block, timed out, quota): none of
         // them may be mistaken for something that can be papered over
-        let once = [libc::EIO, libc::EAGAIN, libc::ETIMEDOUT, libc::EIO, libc::EDQUOT][(k % 5) as usize];
+        // (EINTR is left out: the standard library repeats an interrupted write in full,
+        // which loses nothing.) The table is walked by write index + scenario number, so every
+        // class meets first, middle and last writes across the scenarios of a run.
+        const ONCE: [i32; 20] = [
+            libc::EIO, libc::EAGAIN, libc::ETIMEDOUT, libc::EPIPE, libc::EDQUOT, libc::EFBIG, libc::EROFS, libc::ENXIO, libc::ENOMEM, libc::EBADF,
+            libc::EINVAL, libc::ECONNRESET, libc::ENODEV, libc::ENOBUFS, libc::ESTALE, libc::EPERM, libc::EACCES, libc::ENOLCK, libc::EOVERFLOW, libc::ENOSPC,
+        ];
+        let once = ONCE[((k as usize) + p.idx * 7) % ONCE.len()];
+        // the last write additionally meets a second class (its error is reported only to
+        // whoever asks after the last chunk)
+        let once_last = ONCE[((k as usize) + p.idx * 7 + 3) % ONCE.len()];
         let mut modes = vec![Mode::ExitBefore, Mode::ExitAfter, Mode::Errno(once, false), Mode::Errno(libc::ENOSPC, true)];
+        if k as usize == w - 1 {
+            modes.push(Mode::Errno(once_last, false));
+        }
         if len > 1 {
             modes.push(Mode::Torn(1));
             modes.push(Mode::Torn(len - 1));
@@ -662,7 +675,7 @@ pub fn run(tier: Tier, seed: u64) -> i32 {
         rep.broken("no scenario was enumerated / no fault fired".into());
     }
     rep.finish(
-        "process engine: per scenario (plain / seeds / in-place incl. block device via hook) every output write index k of the uninterrupted run x {_exit before, _exit after, torn after 1 / mid / len-1 bytes + _exit, EIO / EAGAIN / ETIMEDOUT / EDQUOT once, ENOSPC sticky, legal short write} injected by the LD_PRELOAD shim on the k-th write of the process (all threads), plus ftruncate failing / crashing and RLIMIT_FSIZE real short writes; then `bita clone --seed-output` (with or without the original seeds; in the thorough tier sometimes crashed a second time first) must exit 0 with output == source; a failed write must give a non-zero exit; library engine: all small uniform-size layouts x every write index x every tear offset 0..len (and an I/O error at every write) on an in-memory file, re-scanned with the real FixedSize chunker; non-trivial = distinct (scenario, k, mode) triples whose fault fired and whose write prefix matched the reference run",
+        "process engine: per scenario (plain / seeds / in-place incl. block device via hook) every output write index k of the uninterrupted run x {_exit before, _exit after, torn after 1 / mid / len-1 bytes + _exit, one of 20 errno classes once (EIO, EAGAIN, ETIMEDOUT, EPIPE, EDQUOT, EFBIG, EROFS, ENXIO, ENOMEM, EBADF, EINVAL, ECONNRESET, ENODEV, ENOBUFS, ESTALE, EPERM, EACCES, ENOLCK, EOVERFLOW, ENOSPC; walked by write index + scenario), ENOSPC sticky, legal short write} injected by the LD_PRELOAD shim on the k-th write of the process (all threads), plus ftruncate failing / crashing and RLIMIT_FSIZE real short writes; then `bita clone --seed-output` (with or without the original seeds; in the thorough tier sometimes crashed a second time first) must exit 0 with output == source; a failed write must give a non-zero exit; library engine: all small uniform-size layouts x every write index x every tear offset 0..len (and an I/O error at every write) on an in-memory file, re-scanned with the real FixedSize chunker; non-trivial = distinct (scenario, k, mode) triples whose fault fired and whose write prefix matched the reference run",
         &[
             "an interrupted process leaves the page cache intact (the shim's _exit); power loss is out of scope",
             "the k-th write denotes the same point only if the write sequence is deterministic: checked per case (prefix of the reference log), else counted inconclusive",
